@@ -290,7 +290,7 @@ static void phaseMutants(const Conf &cf, const vr::Shard &sh, vr::Report &rep)
         return true;
       if (sh.timeUp())
         return false;
-      if (sh.w == 0)
+      if (sh.w == 0 && !sh.resumed)
       {
         rep.counters["mutation_base_docs"]++;
         rep.counters["max_base_bytes"] = std::max<uint64_t>(rep.counters["max_base_bytes"], d.bytes.size());
